@@ -1,0 +1,128 @@
+//! Verification hooks (cargo feature `verif`, off by default).
+//!
+//! Thin public wrappers around crate-private items so that an external
+//! simulation harness can drive them directly. This module contains no logic
+//! of its own and is not part of xt's API.
+
+use std::borrow::Cow;
+use std::io::{self, BufRead, Read};
+
+use crate::input;
+use crate::Format;
+
+/// Returns the result of format detection for a slice input.
+pub fn detect_slice(input: &[u8]) -> io::Result<Option<Format>> {
+	crate::detect::detect_format(&mut input::Handle::from_slice(input))
+}
+
+/// Returns the result of format detection for a reader input.
+pub fn detect_reader<R: Read>(input: R) -> io::Result<Option<Format>> {
+	crate::detect::detect_format(&mut input::Handle::from_reader(input))
+}
+
+/// One step performed on a borrowed input reference.
+pub enum RefOp {
+	/// A single `read` call with a buffer of the given size.
+	Read(usize),
+	/// A `prefix` request with the given size hint.
+	Prefix(usize),
+}
+
+/// The observable result of a [`RefOp`].
+pub enum RefOpResult {
+	/// The borrow is a slice (all later steps see the same); holds its bytes.
+	Slice(Vec<u8>),
+	/// The bytes produced by a `read` call on a reader borrow.
+	Read(io::Result<Vec<u8>>),
+	/// The bytes produced by a `prefix` call on a reader borrow.
+	Prefix(io::Result<Vec<u8>>),
+}
+
+/// Owned input obtained from a [`Handle`].
+pub enum Owned<'i> {
+	Slice(Vec<u8>),
+	Reader(Box<dyn Read + 'i>),
+}
+
+/// Wrapper around the crate's rewindable input handle.
+pub struct Handle<'i>(input::Handle<'i>);
+
+impl<'i> Handle<'i> {
+	pub fn from_slice(b: &'i [u8]) -> Self {
+		Handle(input::Handle::from_slice(b))
+	}
+
+	pub fn from_reader<R: Read + 'i>(r: R) -> Self {
+		Handle(input::Handle::from_reader(r))
+	}
+
+	/// Borrows the input once and performs the given steps on that borrow.
+	pub fn borrow_ops(&mut self, ops: &[RefOp]) -> Vec<RefOpResult> {
+		let mut input_ref = self.0.borrow_mut();
+		let mut results = Vec::with_capacity(ops.len());
+		for op in ops {
+			results.push(match (&mut input_ref, op) {
+				(input::Ref::Slice(b), _) => RefOpResult::Slice(b.to_vec()),
+				(input::Ref::Reader(r), RefOp::Read(n)) => {
+					let mut buf = vec![0u8; *n];
+					RefOpResult::Read(r.read(&mut buf).map(|len| {
+						buf.truncate(len);
+						buf
+					}))
+				}
+				(r @ input::Ref::Reader(_), RefOp::Prefix(n)) => {
+					RefOpResult::Prefix(r.prefix(*n).map(<[u8]>::to_vec))
+				}
+			});
+		}
+		results
+	}
+
+	/// Takes ownership of the input the way streaming formats do.
+	pub fn into_input(self) -> Owned<'i> {
+		match self.0.into() {
+			input::Input::Slice(b) => Owned::Slice(b.into_owned()),
+			input::Input::Reader(r) => Owned::Reader(r),
+		}
+	}
+
+	/// Takes ownership of the input the way slice-only formats do.
+	pub fn into_cow(self) -> io::Result<Vec<u8>> {
+		let cow: Cow<'i, [u8]> = self.0.try_into()?;
+		Ok(cow.into_owned())
+	}
+}
+
+/// Names the encoding that YAML encoding detection selects for a prefix.
+pub fn yaml_detect_encoding(prefix: &[u8]) -> &'static str {
+	crate::yaml::verif::detect_encoding(prefix)
+}
+
+/// Wraps a reader in the YAML re-encoder, detecting the source encoding.
+pub fn yaml_reencode<'r, R: BufRead + 'r>(reader: R) -> io::Result<Box<dyn Read + 'r>> {
+	crate::yaml::verif::reencode(reader)
+}
+
+/// Wraps a reader in the YAML re-encoder for a named source encoding
+/// (as returned by [`yaml_detect_encoding`]).
+pub fn yaml_reencode_from<'r, R: BufRead + 'r>(reader: R, encoding: &str) -> Box<dyn Read + 'r> {
+	crate::yaml::verif::reencode_from(reader, encoding)
+}
+
+/// Runs the YAML chunker over a UTF-8 reader, yielding at most `max_docs`
+/// `(content, is_collection)` results before dropping it.
+pub fn yaml_chunks<R: Read>(reader: R, max_docs: usize) -> Vec<io::Result<(String, bool)>> {
+	crate::yaml::verif::chunks(reader, max_docs)
+}
+
+/// Parses at most `max_events` YAML events from a UTF-8 reader, then drops
+/// the parser. Returns the number of events parsed.
+pub fn yaml_events<R: Read>(reader: R, max_events: usize) -> io::Result<usize> {
+	crate::yaml::verif::events(reader, max_events)
+}
+
+/// Returns the size of the first MessagePack value in the input as computed
+/// for slice inputs, or the error text.
+pub fn msgpack_next_value_size(input: &[u8]) -> Result<usize, String> {
+	crate::msgpack::verif_next_value_size(input)
+}
